@@ -2,7 +2,7 @@
    conversions of _transform_space, zone law, lengths, duality, cross
    products -- for EVERY lattice base accepted by diffpy. *)
 From Coq Require Import Reals ZArith Lra Lia Nsatz Bool List Psatz.
-From Verif Require Import Scalar RInst C09Lin C09Miller C09.
+From Verif Require Import Scalar RInst C09Lin C09Miller C09Model.
 From Verif Require Import C09LinAlg.
 Import ListNotations.
 Local Open Scope R_scope.
@@ -187,19 +187,40 @@ Lemma transform_space_spec (A : M3) (si so : space) (v : V3) :
   mdet ROps A <> 0 -> (si, so) <> (Sr, Sd) ->
   transform_space ROps (Lat A) si so v = Ok (vmat ROps v (conv_mat A si so)).
 Proof.
-  intros H Hne. destruct si, so; simpl; try rewrite vmat_mid; try reflexivity.
+  intros H Hne.
+  destruct si, so;
+    cbn [transform_space transform_matrix rmap apply_matrix Lat l_metrics l_base l_recbase
+         l_rec_metrics conv_mat];
+    try rewrite vmat_mid; try reflexivity.
   - rewrite metrics_gram by auto. reflexivity.
   - congruence.
 Qed.
 
+Lemma ts_dc (A : M3) (v : V3) : transform_space ROps (Lat A) Sd Sc v = Ok (vmat ROps v A).
+Proof. reflexivity. Qed.
+Lemma ts_rc (A : M3) (v : V3) : transform_space ROps (Lat A) Sr Sc v = Ok (vmat ROps v (mtr (minv ROps A))).
+Proof. reflexivity. Qed.
+Lemma ts_cd (A : M3) (v : V3) : transform_space ROps (Lat A) Sc Sd v = Ok (vmat ROps v (minv ROps A)).
+Proof. reflexivity. Qed.
+Lemma ts_cr (A : M3) (v : V3) : transform_space ROps (Lat A) Sc Sr v = Ok (vmat ROps v (mtr A)).
+Proof. reflexivity. Qed.
+Lemma Ok_inj {X : Type} (a b : X) : Ok a = Ok b -> a = b.
+Proof. intros H; inversion H; reflexivity. Qed.
+
 Lemma transform_space_rd (A : M3) (v : V3) :
   0 < mdet ROps A -> mdet ROps A <= 100000000 ->
   transform_space ROps (Lat A) Sr Sd v = Ok (vmat ROps v (rgram A)).
-Proof. intros Hp Hh. simpl. rewrite rec_metrics_ok by auto. reflexivity. Qed.
+Proof.
+  intros Hp Hh. unfold transform_space, transform_matrix; cbn [Lat l_rec_metrics].
+  rewrite rec_metrics_ok by auto. reflexivity.
+Qed.
 
 Lemma transform_space_rd_err (A : M3) (v : V3) :
   100000000 < mdet ROps A -> transform_space ROps (Lat A) Sr Sd v = Err LatticeError.
-Proof. intros Hh. simpl. rewrite rec_metrics_err by auto. reflexivity. Qed.
+Proof.
+  intros Hh. unfold transform_space, transform_matrix; cbn [Lat l_rec_metrics].
+  rewrite rec_metrics_err by auto. reflexivity.
+Qed.
 
 (* any successful conversion is multiplication by conv_mat *)
 Lemma transform_space_ok (A : M3) (si so : space) (v w : V3) :
@@ -337,7 +358,7 @@ Theorem zone_law (A : M3) (L : lattice R) (uvw hkl x g : V3) :
   vdot ROps x g = vdot ROps uvw hkl.
 Proof.
   intros HL H1 H2. apply lattice_of_base_inv in HL. destruct HL as [Hd ->]. unfold eps8R in Hd.
-  simpl in H1, H2. inversion H1; inversion H2. apply zone_law_mat. lra.
+  rewrite ts_dc in H1. rewrite ts_rc in H2. apply Ok_inj in H1, H2. subst x g. apply zone_law_mat. lra.
 Qed.
 
 (* direct base vectors a_i and reciprocal base vectors a*_j are dual *)
